@@ -130,6 +130,8 @@ type Cluster struct {
 	FaultSteps                                                     int
 	cmd                                                            *cmdFeed
 	sending                                                        int // actor idx whose handlers are running (sender attribution)
+	// Cut lists individual links that are down (in addition to the partition groups).
+	Cut map[[2]int]bool
 	// CutLoss: every message sent across a cut link is lost (instead of half of them being delayed).
 	CutLoss bool
 	// NoFaults switches off fault injection inside lockstepRound (synchronous suffix of C05).
@@ -226,6 +228,9 @@ func (c *Cluster) trace(e TraceEntry) {
 // ---------------------------------------------------------------- network
 
 func (c *Cluster) linkOpen(from, to *Actor) bool {
+	if c.Cut != nil && (c.Cut[[2]int{from.Idx, to.Idx}] || c.Cut[[2]int{to.Idx, from.Idx}]) {
+		return false
+	}
 	return from.Group == to.Group
 }
 
@@ -288,7 +293,7 @@ func (c *Cluster) fetch(a *Actor, h hotstuff.Hash) (*hotstuff.Block, bool) {
 			}
 		} else if o.Byz != nil {
 			// a Byzantine replica answers block requests selectively (fixed per requester and block)
-			if b, ok := o.Byz.serve[h]; ok && (vbase.Hash64(fmt.Sprint(a.Idx, h, c.Cfg.Steps))%3 != 0 || c.Cfg.Profile == "subject-votes") {
+			if b, ok := o.Byz.serve[h]; ok && !o.Byz.refuse[h] && (c.Cfg.Profile == "directed:selective-fetch" || vbase.Hash64(fmt.Sprint(a.Idx, h, c.Cfg.Steps))%3 != 0 || c.Cfg.Profile == "subject-votes") {
 				return b, true
 			}
 		}
